@@ -112,6 +112,20 @@ def default_of(t):
     raise Unsupported(f'no default for {t}')
 
 
+def _target_names(tg):
+    """names (re)bound by an assignment target: `x`, `(x, y)`; `x[...] = e` / `x.a = e` update x (the names inside the subscript are only read)"""
+    if isinstance(tg, ast.Name):
+        return [tg.id]
+    if isinstance(tg, (ast.Tuple, ast.List)):
+        return [n for e in tg.elts for n in _target_names(e)]
+    if isinstance(tg, (ast.Subscript, ast.Attribute)):
+        b = tg.value
+        while isinstance(b, (ast.Subscript, ast.Attribute)):
+            b = b.value
+        return [b.id] if isinstance(b, ast.Name) else []
+    return []
+
+
 def _assigned(stmts):
     """names (re)bound by a statement list, incl. lists appended to and loop targets"""
     out = []
@@ -119,11 +133,11 @@ def _assigned(stmts):
         for n in ast.walk(st):
             if isinstance(n, ast.Assign):
                 for tg in n.targets:
-                    for m in ast.walk(tg):
-                        if isinstance(m, ast.Name):
-                            out.append(m.id)
+                    out += _target_names(tg)
             elif isinstance(n, ast.AugAssign) and isinstance(n.target, ast.Name):
                 out.append(n.target.id)
+            elif isinstance(n, ast.AugAssign) and isinstance(n.target, ast.Subscript) and isinstance(n.target.value, ast.Name):
+                out.append(n.target.value.id)          # `x[a:b] op= e` updates x
             elif isinstance(n, ast.Expr) and isinstance(n.value, ast.Call) and isinstance(n.value.func, ast.Attribute) \
                     and n.value.func.attr == 'append' and isinstance(n.value.func.value, ast.Name):
                 out.append(n.value.func.value.id)
@@ -144,6 +158,10 @@ class TrL(TrX):
         self.arity = self._list_arities(self.tree)
         params = {a.arg for a in self.tree.args.args}
         self.tree.body = self._lift(self.tree.body, set(params))
+
+    def _sub_kwargs(self, params):
+        """extra constructor arguments for the translator of a synthesised loop body / test (subclasses)"""
+        return {}
 
     # ------------------------------------------------------------------ syntactic pre-pass
     @staticmethod
@@ -172,6 +190,16 @@ class TrL(TrX):
                     raise Unsupported(f'element type of the empty list {x} is not determined by an append of a tuple')
                 st = ast.Assign(targets=st.targets, value=ast.Call(func=ast.Name(id='__nil__', ctx=ast.Load()),
                                                                    args=[ast.Constant(value=self.arity[x])], keywords=[]))
+            if isinstance(st, (ast.Assign, ast.AugAssign)):
+                tg = st.targets[0] if isinstance(st, ast.Assign) and len(st.targets) == 1 else getattr(st, 'target', None)
+                if isinstance(tg, ast.Subscript) and isinstance(tg.value, ast.Name) and isinstance(tg.slice, (ast.Slice, ast.Tuple)):
+                    # `x[a:b] = e` / `x[a:b] op= e` on an array variable: read as rebinding x (admitted only under the aliasing discipline
+                    # of py2lean_arrays; everything else refuses the synthetic call)
+                    x = tg.value.id
+                    view = ast.Subscript(value=ast.Name(id=x, ctx=ast.Load()), slice=tg.slice, ctx=ast.Load())
+                    val = st.value if isinstance(st, ast.Assign) else ast.BinOp(left=copy.deepcopy(view), op=st.op, right=st.value)
+                    st = ast.Assign(targets=[ast.Name(id=x, ctx=ast.Store())],
+                                    value=ast.Call(func=ast.Name(id='__setslice__', ctx=ast.Load()), args=[view, val], keywords=[]))
             if isinstance(st, ast.Assign) and len(st.targets) == 1 and isinstance(st.targets[0], ast.Subscript) and isinstance(st.targets[0].value, ast.Name) \
                     and not isinstance(st.targets[0].slice, (ast.Slice, ast.Tuple)):
                 # `d[k] = v` on a dict variable: read as `d = dictSet(d, k, v)` (the dict is never aliased in the subset)
@@ -264,7 +292,7 @@ class TrL(TrX):
         return [Ren().visit(copy.deepcopy(s)) for s in branch]
 
     def assigned_names(self, stmts):
-        return [n for n in Tr.assigned_names(self, stmts) if not n.startswith('tmpb_')]
+        return [n for n in Tr.assigned_names(self, stmts) if not n.startswith('tmpb_') and not n.startswith('st_loop')]
 
     # ------------------------------------------------------------------ expressions
     def add_aux(self, name, text):
@@ -417,7 +445,8 @@ class TrL(TrX):
             sig = {}
             for p in params:
                 sig[p] = INT if p == loopvar else (etype if p == elemvar else env[p][1])
-            sub = TrL(None, sig, f'{base}_{kind}', rettype, known=self.known, src=src, fuel=sub_fuel if kind == 'body' else None)
+            sub = type(self)(None, sig, f'{base}_{kind}', rettype, known=self.known, src=src, fuel=sub_fuel if kind == 'body' else None,
+                             **self._sub_kwargs(params))
             self.add_aux(f'{base}_{kind}', sub.translate())
             self.loop_info += [(f'{label}.{a}', b, c, d, f) for a, b, c, d, f in sub.loop_info]
 
